@@ -1,6 +1,8 @@
 //! Correspondence harness: drives the real egglog crates (built from /repo's working tree,
 //! with `--cfg egglog_verif`) and the Lean model driver on the same inputs.
 mod engine;
+mod pgen;
+mod session;
 mod lean;
 mod report;
 mod rng;
